@@ -75,6 +75,8 @@ pub struct Cx<'g> {
     fuel_next: usize,
     /// length of the array type a `let` annotation asks for (const-generic argument of the initialiser call)
     pub array_len_hint: Option<String>,
+    /// array length found by looking ahead for the field that the `let` variable initialises
+    array_len_lookahead: Option<String>,
     /// `Result` fn with `&mut` state: `Err` carries the current state
     pub err_state: bool,
     /// aliases to install in the next block scope (loop variable of `for x in v.iter_mut()`)
@@ -112,6 +114,7 @@ impl<'g> Cx<'g> {
             fuels: Vec::new(),
             fuel_next: 0,
             array_len_hint: None,
+            array_len_lookahead: None,
             err_state: false,
             pending_aliases: Vec::new(),
         }
@@ -197,8 +200,8 @@ impl<'g> Cx<'g> {
         false
     }
 
-    /// the `&mut` place a scrutinee names (`x` / `*x` for an alias `x`)
-    pub fn alias_scrutinee(&self, e: &syn::Expr) -> Option<Place> {
+    /// the `&mut` place a scrutinee names (`x` / `*x` for an alias `x`, `&mut place`)
+    pub fn alias_scrutinee(&mut self, e: &syn::Expr, stmts: &mut Vec<Stmt>) -> R<Option<Place>> {
         let mut scr: &syn::Expr = e;
         loop {
             match scr {
@@ -210,10 +213,30 @@ impl<'g> Cx<'g> {
         }
         if let syn::Expr::Path(p) = scr {
             if p.qself.is_none() && p.path.segments.len() == 1 {
-                return self.alias_of(&p.path.segments[0].ident.to_string());
+                return Ok(self.alias_of(&p.path.segments[0].ident.to_string()));
             }
         }
-        None
+        if let syn::Expr::Reference(r) = scr {
+            if r.mutability.is_some() {
+                return Ok(Some(self.place(&r.expr, stmts)?));
+            }
+        }
+        Ok(None)
+    }
+
+    /// value and type of the scrutinee of a `match` / `if let` / `while let` / `let … else`, and the `&mut`
+    /// place it names (if any)
+    pub fn scrutinee(&mut self, e: &syn::Expr, stmts: &mut Vec<Stmt>) -> R<(String, Ty, Option<Place>)> {
+        match self.alias_scrutinee(e, stmts)? {
+            Some(base) => {
+                let v = self.read(&base, stmts)?;
+                Ok((v, base.ty(), Some(base)))
+            }
+            None => {
+                let (v, t) = self.expr(e, None, stmts)?;
+                Ok((v, t, None))
+            }
+        }
     }
 
     pub fn unused_fuel(&self) -> bool {
@@ -380,6 +403,19 @@ impl<'g> Cx<'g> {
         }
     }
 
+    /// the value an early `return v` sends through the early-exit channel (wrapped once per enclosing exit-style loop)
+    pub fn early_payload(&self, v: &str) -> String {
+        let mut p = self.payload(v);
+        for _ in 0..self.loop_stack.len() {
+            p = format!("(RustSem.LoopExit.ret {})", p);
+        }
+        if p.starts_with('(') {
+            p
+        } else {
+            format!("({})", p)
+        }
+    }
+
     /// translate `e` in return position; `early` = it is the operand of `return`
     pub fn ret_doc(&mut self, e: Option<&syn::Expr>, early: bool, span: proc_macro2::Span, stmts: &mut Vec<Stmt>) -> R<Doc> {
         let wrap = |cx: &Cx, v: &str| -> Doc {
@@ -404,6 +440,15 @@ impl<'g> Cx<'g> {
             Some(e) => e,
         };
         if self.err.is_none() {
+            // a tail `if` / `match` / block whose branches assign outer variables: every branch ends the function
+            if !early && !self.assigned_in_expr(e).is_empty() {
+                match e {
+                    syn::Expr::If(i) => return Ok(self.if_doc(i, &Tail::FnBody, stmts)?.0),
+                    syn::Expr::Match(m) => return Ok(self.match_doc(m, &Tail::FnBody, stmts)?.0),
+                    syn::Expr::Block(b) if b.label.is_none() => return Ok(self.block(&b.block, &Tail::FnBody, &[])?.0),
+                    _ => {}
+                }
+            }
             let ret = self.ret.clone();
             let (v, _) = self.expr(e, Some(&ret), stmts)?;
             return Ok(wrap(self, &v));
@@ -433,6 +478,10 @@ impl<'g> Cx<'g> {
                 self.result_tail_call(e, stmts)
             }
             syn::Expr::MethodCall(_) => self.result_tail_call(e, stmts),
+            syn::Expr::Macro(m) => match self.stmt_macro(&m.mac, stmts)? {
+                Some(d) => Ok(d),
+                None => self.bail(e.span(), "this macro is not a value of type `Result`"),
+            },
             syn::Expr::If(i) => {
                 let (d, _) = self.if_doc(i, &Tail::FnBody, stmts)?;
                 Ok(d)
@@ -491,7 +540,13 @@ impl<'g> Cx<'g> {
                     let d = self.let_else(l, &items[idx + 1..], tail, span, &mut stmts)?;
                     return Ok((Doc::seq(stmts, d.0), d.1, d.2));
                 }
-                syn::Stmt::Local(l) => self.local(l, &mut stmts)?,
+                syn::Stmt::Local(l) => {
+                    // `let x = f(..)?;` with a const-generic `f`: the array length may only be fixed by a later use
+                    self.array_len_lookahead = self.infer_array_len(l, &items[idx + 1..]);
+                    let r = self.local(l, &mut stmts);
+                    self.array_len_lookahead = None;
+                    r?
+                }
                 syn::Stmt::Item(syn::Item::Use(u)) => self.use_item(u)?,
                 syn::Stmt::Item(syn::Item::Const(c)) => {
                     // a `const` nested in a block: a `let` whose initialiser is a constant expression
@@ -673,10 +728,12 @@ impl<'g> Cx<'g> {
             }
         }
         // scrutinee is a `&mut` binding: a struct-variant pattern binds references into it
-        if let Some(base) = self.alias_scrutinee(&init.expr) {
+        let (v, vt, base) = self.scrutinee(&init.expr, stmts)?;
+        if let Some(base) = &base {
             if matches!(pat, syn::Pat::Struct(_)) {
                 let site = self.site(&*init.expr);
-                let val = self.read(&base, stmts)?;
+                let base = base.clone();
+                let val = v;
                 let (lp, aliases) = self.variant_aliases(&base, pat, site)?;
                 let ed = else_doc(self)?;
                 let binds: Vec<(String, Ty)> = aliases.iter().map(|(n, p)| (n.clone(), p.ty())).collect();
@@ -686,17 +743,82 @@ impl<'g> Cx<'g> {
             }
         }
         // by-value pattern
-        let (v, vt) = self.expr(&init.expr, None, stmts)?;
         let (lp, binds) = self.pat(pat, &vt)?;
         for (n, _) in &binds {
             self.check_local_name(n, pat.span())?;
         }
         let ed = else_doc(self)?;
-        if self.alias_scrutinee(&init.expr).is_some() {
+        if base.is_some() {
             self.pending_ro.extend(binds.iter().map(|(n, _)| n.clone()));
         }
         let (rd, ty, div) = self.items(rest, tail, &binds, span)?;
         Ok((Doc::Match(v, vec![(lp, rd), ("_".into(), ed)]), ty, div))
+    }
+
+    /// `let x = …;` without annotation: if a later struct / variant literal of the block initialises an array-typed
+    /// field with `x`, that field's declared length (Rust infers the same: it is the only constraint on the length)
+    fn infer_array_len(&mut self, l: &syn::Local, rest: &[syn::Stmt]) -> Option<String> {
+        let name = match &l.pat {
+            syn::Pat::Ident(pi) if pi.subpat.is_none() => pi.ident.to_string(),
+            _ => return None,
+        };
+        struct Find<'n> {
+            name: &'n str,
+            hit: Option<(syn::Path, String)>,
+        }
+        impl<'ast, 'n> Visit<'ast> for Find<'n> {
+            fn visit_expr_struct(&mut self, s: &'ast syn::ExprStruct) {
+                if self.hit.is_none() {
+                    for fv in &s.fields {
+                        let is_var = matches!(&fv.expr, syn::Expr::Path(p) if p.path.is_ident(self.name));
+                        if let (true, syn::Member::Named(f)) = (is_var, &fv.member) {
+                            self.hit = Some((s.path.clone(), f.to_string()));
+                            return;
+                        }
+                    }
+                }
+                syn::visit::visit_expr_struct(self, s);
+            }
+        }
+        let mut f = Find { name: &name, hit: None };
+        for st in rest {
+            // a later `let` of the same name ends the scope of this variable
+            if let syn::Stmt::Local(l2) = st {
+                if let Some(i) = &l2.init {
+                    f.visit_expr(&i.expr);
+                }
+                let mut names = Vec::new();
+                super::analysis::pat_idents(&l2.pat, &mut names);
+                if f.hit.is_some() || names.contains(&name) {
+                    break;
+                }
+                continue;
+            }
+            f.visit_stmt(st);
+            if f.hit.is_some() {
+                break;
+            }
+        }
+        let (path, field) = f.hit?;
+        let key = match self.resolve_variant(&path) {
+            Some((en, v)) => (en, v, field),
+            None => {
+                let segs: Vec<String> = path.segments.iter().map(|s| s.ident.to_string()).collect();
+                let mut n = segs.last()?.clone();
+                if n == "Self" {
+                    n = self.self_ty.clone()?;
+                } else {
+                    n = self.g.tkey(&self.file, &n);
+                }
+                (n, String::new(), field)
+            }
+        };
+        let len = self.g.array_lens.get(&key)?.clone();
+        let mut tmp: Vec<Stmt> = Vec::new();
+        match self.expr(&len, Some(&Ty::usize()), &mut tmp) {
+            Ok((t, _)) if tmp.is_empty() => Some(t),
+            _ => None,
+        }
     }
 
     fn use_item(&mut self, u: &syn::ItemUse) -> R<()> {
@@ -704,7 +826,7 @@ impl<'g> Cx<'g> {
         if let syn::UseTree::Path(p) = &u.tree {
             if let syn::UseTree::Glob(_) = &*p.tree {
                 let n = p.ident.to_string();
-                let n = if n == "Self" { self.self_ty.clone().unwrap_or(n) } else { n };
+                let n = if n == "Self" { self.self_ty.clone().unwrap_or(n) } else { self.g.tkey(&self.file, &n) };
                 if self.g.enums.contains_key(&n) {
                     self.glob_enums.push(n);
                     return Ok(());
@@ -813,7 +935,14 @@ impl<'g> Cx<'g> {
             }
         }
         // `let x = &mut place;` : `x` is an alias of the place
-        if let syn::Expr::Reference(r) = &**init {
+        // `let x = &mut <temporary>;` : the variable owns the temporary (`let x = &mut Cursor::new(src);`)
+        let mut init: &syn::Expr = init;
+        if let syn::Expr::Reference(r) = init {
+            if r.mutability.is_some() && !self.is_place(&r.expr) && matches!(&*r.expr, syn::Expr::Call(_)) {
+                init = &r.expr;
+            }
+        }
+        if let syn::Expr::Reference(r) = init {
             if r.mutability.is_some() {
                 let name = match pat {
                     syn::Pat::Ident(pi) if pi.subpat.is_none() && pi.by_ref.is_none() => pi.ident.to_string(),
@@ -829,7 +958,7 @@ impl<'g> Cx<'g> {
             }
         }
         // initialiser that diverges in an arm (`match … { _ => return … }`) is handled by expr()
-        self.array_len_hint = hint;
+        self.array_len_hint = hint.or_else(|| self.array_len_lookahead.take());
         let r = self.expr(init, annot.as_ref(), stmts);
         self.array_len_hint = None;
         let (v, t) = r?;
@@ -1014,9 +1143,34 @@ impl<'g> Cx<'g> {
             }
         };
         if let syn::Expr::Let(l) = &*i.cond {
-            let (scrut, st) = self.expr(&l.expr, None, stmts)?;
+            // `if let Entry::Vacant(entry) = map.entry(k) { … entry.insert(v) … }`: the key is absent; `entry` stands
+            // for the (vacant) map entry
+            if let (syn::Pat::TupleStruct(ts), syn::Expr::MethodCall(mc)) = (&*l.pat, &*l.expr) {
+                let segs: Vec<String> = ts.path.segments.iter().map(|x| x.ident.to_string()).collect();
+                let n = segs.len();
+                if n >= 2 && segs[n - 2] == "Entry" && segs[n - 1] == "Vacant" && ts.elems.len() == 1 && mc.method == "entry" && mc.args.len() == 1 {
+                    if let syn::Pat::Ident(pi) = &ts.elems[0] {
+                        let name = pi.ident.to_string();
+                        self.check_local_name(&name, l.pat.span())?;
+                        let base = self.place(&mc.receiver, stmts)?;
+                        let (kt, vt) = match base.ty() {
+                            Ty::Map(k, v, _) => (*k, *v),
+                            _ => return self.bail(mc.receiver.span(), "`entry` on a value that is not a map"),
+                        };
+                        let (k, _) = self.expr(&mc.args[0], Some(&kt), stmts)?;
+                        let cur = self.read(&base, stmts)?;
+                        let site = self.site(&*l.expr);
+                        self.pending_aliases.push((name.clone(), Place::MapEntry(Box::new(base), k.clone(), vt.clone(), site)));
+                        let (dt, tt, div_t) = self.block(&i.then_branch, tail, &[(name, vt)])?;
+                        let (de, te, _) = else_doc(self, if div_t { None } else { Some(tt.clone()) })?;
+                        let ty = if div_t { te } else { tt };
+                        return Ok((Doc::If(format!("(!RustSem.Map.contains_key {} {})", cur, k), Box::new(dt), Box::new(de)), ty));
+                    }
+                }
+            }
+            let (scrut, st, base) = self.scrutinee(&l.expr, stmts)?;
             let (p, binds) = self.pat(&l.pat, &st)?;
-            if self.alias_scrutinee(&l.expr).is_some() {
+            if base.is_some() {
                 self.pending_ro.extend(binds.iter().map(|(n, _)| n.clone()));
             }
             let (dt, tt, div_t) = self.block(&i.then_branch, tail, &binds)?;
@@ -1035,11 +1189,10 @@ impl<'g> Cx<'g> {
     }
 
     pub fn match_doc(&mut self, m: &syn::ExprMatch, tail: &Tail, stmts: &mut Vec<Stmt>) -> R<(Doc, Ty)> {
-        let (scrut, st) = self.expr(&m.expr, None, stmts)?;
+        let (scrut, st, base) = self.scrutinee(&m.expr, stmts)?;
         let mut arms = Vec::new();
         let mut ty = Ty::Unknown;
         let mut tail = tail.clone();
-        let base = self.alias_scrutinee(&m.expr);
         for arm in &m.arms {
             if arm.guard.is_some() {
                 return self.bail(arm.span(), "match guards are not supported");
@@ -1103,9 +1256,9 @@ impl<'g> Cx<'g> {
             let brk = Doc::atom(format!("Exec.ret (RustSem.LoopExit.brk {})", Self::tuple_val(&m)));
             if let syn::Expr::Let(l) = &*w.cond {
                 // `while let PAT = scrutinee { body }`: the scrutinee is evaluated at the start of every round
-                let (scrut, st) = self.expr(&l.expr, None, &mut cs)?;
+                let (scrut, st, base) = self.scrutinee(&l.expr, &mut cs)?;
                 let (p, binds) = self.pat(&l.pat, &st)?;
-                if self.alias_scrutinee(&l.expr).is_some() {
+                if base.is_some() {
                     self.pending_ro.extend(binds.iter().map(|(n, _)| n.clone()));
                 }
                 let (body, _, _) = self.block(&w.body, &Tail::Unit(m.clone()), &binds)?;
@@ -1578,6 +1731,28 @@ impl<'g> Cx<'g> {
             return self.write(&place, t, stmts);
         }
         let place = self.place(recv, stmts)?;
+        // `entry.insert(v)` on the vacant entry bound by `if let Entry::Vacant(entry) = map.entry(k)`
+        if let (Place::MapEntry(_, _, vt, _), "insert", 1, true) = (&place, name.as_str(), args.len(), matches!(recv, syn::Expr::Path(_))) {
+            let vt = vt.clone();
+            let (v, _) = self.expr(args[0], Some(&vt), stmts)?;
+            return self.write(&place, v, stmts);
+        }
+        if let Ty::Set(kt) = place.ty() {
+            let cur = self.read(&place, stmts)?;
+            let new = match (name.as_str(), args.len()) {
+                ("insert", 1) => {
+                    let (k, _) = self.expr(args[0], Some(&kt), stmts)?;
+                    format!("(RustSem.Set.insert {} {})", cur, k)
+                }
+                ("remove", 1) => {
+                    let (k, _) = self.expr(args[0], Some(&kt), stmts)?;
+                    format!("(RustSem.Set.remove {} {})", cur, k)
+                }
+                ("clear", 0) => "[]".to_string(),
+                _ => return self.bail(mc.span(), format!("unsupported call of `{}` on a set", name)),
+            };
+            return self.write(&place, new, stmts);
+        }
         if let Ty::Map(kt, vt, _) = place.ty() {
             let cur = self.read(&place, stmts)?;
             let new = match (name.as_str(), args.len()) {
